@@ -402,6 +402,43 @@ print(json.dumps(out))
 """
 
 
+def buffer_reuse_cases(run):
+    """one array object analysed, refilled in place with another curve (a
+    preallocated buffer; also truncated-and-shifted contents), analysed again:
+    the estimate is that of a fresh array holding the same values"""
+    crv = model_curves("quick", True)
+    pairs = [(crv[i][1], crv[j][1]) for i, j in ((0, 1), (1, 2), (2, 0))
+             if max(i, j) < len(crv)]
+    for pi, (fa, fb) in enumerate(pairs):
+        n = min(len(fa), len(fb))
+        fa, fb = np.array(fa[:n], float), np.array(fb[-n:], float)
+        for meth in methods():
+            key = f"buffer-reuse:{pi}:{meth}"
+            run.case({"scenario": "buffer-reuse", "pair": pi, "method": meth},
+                     kind="buffer-reuse")
+            try:
+                buf = fa.copy()
+                call(buf, meth)
+                buf[:] = fb
+                got = call(buf, meth)
+                want = call(fb.copy(), meth)
+                buf[:] = fa[::-1] * 0.5 + fb
+                got2 = call(buf, meth, ret_details=True)
+                got2 = got2[0] if isinstance(got2, tuple) else got2
+                want2 = call((fa[::-1] * 0.5 + fb).copy(), meth)
+            except BaseException as e:
+                run.failing(SITE, key, f"raised {type(e).__name__}: {e}",
+                            payload={"kind": "rerun"})
+                continue
+            same = lambda a, b: a == b or (a != a and b != b)
+            if not (same(got, want) and same(got2, want2)):
+                run.failing(SITE, key, f"{meth}: an array refilled in place "
+                            f"gives index {got} / {got2}, a fresh array with "
+                            f"the same values {want} / {want2}",
+                            payload={"kind": "rerun"},
+                            theorem="C08 (function of the force values)")
+
+
 def process_order_cases(run):
     """the estimate for a curve does not depend on which curves the process
     analysed before: a long curve analysed after very short ones (and after
@@ -541,6 +578,7 @@ def check(run):
                             theorem="C08_valid_*")
     curve_history(run)
     process_order_cases(run)
+    buffer_reuse_cases(run)
     # unknown method
     try:
         call(np.linspace(0, 1, 50), "no_such_method")
